@@ -200,33 +200,10 @@ def chunks(lst, n):
         yield lst[i:i + n]
 
 
-def replay(path):
-    schemas, lines = {}, []
-    for l in open(path):
-        l = l.rstrip('\n')
-        if l.startswith('#') or not l:
-            if l.startswith('# expected') or l.startswith('# kind'):
-                print(l)
-            continue
-        if l.startswith('schema '):
-            _, sid, spec = l.split(' ', 2)
-            schemas[sid] = spec
-        else:
-            lines.append(l)
-    c = Case(lines, meta={'schemas': schemas})
-    r = engine.confirm(c)
-    print('status', r.status)
-    for l in r.lines:
-        print('observed', l)
-    if r.status != 'ok':
-        print(r.info[-3000:])
-
-
 def main():
     ck = engine.Check(PID)
     if ck.replay:
-        engine.build(['asan'])
-        replay(ck.replay)
+        engine.replay_file(ck.replay)
         return
     engine.build(['asan'])
     quick = ck.tier == 'quick'
